@@ -592,24 +592,28 @@ impl JitCompiler {
                 ebpf::LD_ABS_DW  =>
                     self.emit_load(mem, OperandSize::S64, R10, RAX, insn.imm),
                 ebpf::LD_IND_B   => {
-                    self.emit_mov(mem, R10, R11);                              // load mem into R11
+                    self.emit_load_imm(mem, R11, insn.imm as u32 as i64);      // load imm (zero-extended, as the interpreter does) into R11
+                    self.emit_alu64(mem, 0x01, R10, R11);                      // add mem to R11
                     self.emit_alu64(mem, 0x01, src, R11);                      // add src to R11
-                    self.emit_load(mem, OperandSize::S8,  R11, RAX, insn.imm); // ld R0, mem[src+imm]
+                    self.emit_load(mem, OperandSize::S8,  R11, RAX, 0);        // ld R0, mem[src+imm]
                 }
                 ebpf::LD_IND_H   => {
-                    self.emit_mov(mem, R10, R11);                              // load mem into R11
+                    self.emit_load_imm(mem, R11, insn.imm as u32 as i64);      // load imm (zero-extended, as the interpreter does) into R11
+                    self.emit_alu64(mem, 0x01, R10, R11);                      // add mem to R11
                     self.emit_alu64(mem, 0x01, src, R11);                      // add src to R11
-                    self.emit_load(mem, OperandSize::S16, R11, RAX, insn.imm); // ld R0, mem[src+imm]
+                    self.emit_load(mem, OperandSize::S16, R11, RAX, 0);        // ld R0, mem[src+imm]
                 }
                 ebpf::LD_IND_W   => {
-                    self.emit_mov(mem, R10, R11);                              // load mem into R11
+                    self.emit_load_imm(mem, R11, insn.imm as u32 as i64);      // load imm (zero-extended, as the interpreter does) into R11
+                    self.emit_alu64(mem, 0x01, R10, R11);                      // add mem to R11
                     self.emit_alu64(mem, 0x01, src, R11);                      // add src to R11
-                    self.emit_load(mem, OperandSize::S32, R11, RAX, insn.imm); // ld R0, mem[src+imm]
+                    self.emit_load(mem, OperandSize::S32, R11, RAX, 0);        // ld R0, mem[src+imm]
                 }
                 ebpf::LD_IND_DW  => {
-                    self.emit_mov(mem, R10, R11);                              // load mem into R11
+                    self.emit_load_imm(mem, R11, insn.imm as u32 as i64);      // load imm (zero-extended, as the interpreter does) into R11
+                    self.emit_alu64(mem, 0x01, R10, R11);                      // add mem to R11
                     self.emit_alu64(mem, 0x01, src, R11);                      // add src to R11
-                    self.emit_load(mem, OperandSize::S64, R11, RAX, insn.imm); // ld R0, mem[src+imm]
+                    self.emit_load(mem, OperandSize::S64, R11, RAX, 0);        // ld R0, mem[src+imm]
                 }
 
                 ebpf::LD_DW_IMM  => {
